@@ -316,6 +316,16 @@ func (f *spFam) apply(st M, gb0 map[string]int64) M {
 			}()
 		} else {
 			ev["days"] = int64(0)
+			// a plan-paid post may carry any non-positive expiry (ValidateBasic does not look at it): every fourth one
+			// (or as the replayed step says) is sent with a negative one; it is still a plan-paid file
+			nexp, given := st["nexp"].(bool)
+			if !given {
+				nexp = (sz*7+mp)%4 == 0
+			}
+			if nexp {
+				msg.Expires = -5
+			}
+			ev["nexp"] = nexp
 		}
 		ev["quote"] = quote
 		bB, idB := f.gaugeState()
@@ -397,7 +407,7 @@ func (f *spFam) Project() M {
 	files := []interface{}{}
 	for _, uf := range k.GetAllFileByMerkle(f.ctx) {
 		files = append(files, M{"id": []interface{}{f.rootLabel(uf.Merkle), f.c.LabelOf(uf.Owner), uf.Start}, "owner": f.c.LabelOf(uf.Owner),
-			"size": units(uf.FileSize), "maxp": uf.MaxProofs, "plan": uf.Expires == 0, "start": uf.Start, "interval": uf.ProofInterval})
+			"size": units(uf.FileSize), "maxp": uf.MaxProofs, "plan": uf.Expires <= 0, "start": uf.Start, "interval": uf.ProofInterval})
 	}
 	sortRecs(files)
 	gauges := M{}
